@@ -105,9 +105,10 @@ def map_of(v, resp):
 class OriginSet:
     """A frozenset of origins, observed only through membership of the request's origin."""
 
-    def __init__(self, origin, member):
+    def __init__(self, origin, member, nonempty=True):
         self.origin = origin
         self.member = member
+        self.nonempty = nonempty
 
     def __pyvc_contains__(self, x):
         if x is self.origin:
@@ -120,7 +121,7 @@ class OriginSet:
         return False  # a frozenset never equals the str '*'
 
     def __pyvc_truth__(self):
-        return True
+        return self.nonempty  # an empty configured set is falsy (allow_origins=[] / allow_credentials=None)
 
 
 @stubclass
@@ -144,20 +145,23 @@ def config_set(v, name, origin):
     if v.choose(2, name + '-wildcard?'):
         return '*', True, None
     mem = v.bool(name + '_contains_origin')
+    nonempty = v.bool(name + '_nonempty')  # read only if the subject asks for the set's truth value
+    v.assume(Implies(mem, nonempty))
     if origin is not None:
         # normal form established by __init__ (harness cors_init): a configured set never contains '*'
         v.assume(Implies(origin == '*', Not(mem)))
+    else:
+        v.assume(Not(mem))  # None is never a member of a set of origin strings
     if v.concrete:
-        return frozenset([origin] if (mem and origin is not None) else ['https://unlisted.invalid']), False, mem
-    return OriginSet(origin, mem), False, mem
+        if mem and origin is not None:
+            return frozenset([origin]), False, mem
+        return frozenset(['https://unlisted.invalid'] if nonempty else []), False, mem
+    return OriginSet(origin, mem, nonempty), False, mem
 
 
 def cors_process_response(v):
     req = Req(v)
     origin = req.h['origin']
-    if origin is not None:
-        # RFC 6454: an Origin header carries a serialized origin or "null", never the wildcard
-        v.assume(origin != '*')
     ao, ao_wild, ao_mem = config_set(v, 'allow_origins', origin)
     ac, ac_wild, ac_mem = config_set(v, 'allow_credentials', origin)
     expose = v.str('expose_headers') if v.choose(2, 'expose?') else None
@@ -220,8 +224,10 @@ def cors_process_response(v):
     # ---- the security sentences of the statement, each on its own ------------------------
     mw_wrote_acao = wrote_origin
     # wildcard origin never coexists with a credentials grant written by the policy
+    # (RFC 6454: an Origin header carries a serialized origin or "null", never the wildcard: the literal request header
+    # `Origin: *` is outside this one sentence only; every other clause holds for it too)
     v.check('wildcard-never-with-credentials',
-            Not(And(mw_wrote_acao, Not(H.has(ACAC)), H1.has(ACAO), H1.val(ACAO) == '*', H1.has(ACAC))))
+            Implies(origin != '*', Not(And(mw_wrote_acao, Not(H.has(ACAC)), H1.has(ACAO), H1.val(ACAO) == '*', H1.has(ACAC)))))
     # credentials only for origins configured for them
     v.check('credentials-only-for-configured-origins', Implies(And(Not(H.has(ACAC)), H1.has(ACAC)), And(allowed, cred_cfg)))
     # the allowed origin is echoed whenever credentials are granted
@@ -235,11 +241,17 @@ for _o in (0, 1):
     for _m in (0, 1):
         for _w in (0, 1):
             for _c in (0, 1):
-                if _o == 0 and (_m or _w or _c):
-                    continue  # without an Origin header nothing else matters: one variant
+                if _o == 0:
+                    continue  # see below: one variant without Origin in which everything else still varies
                 harness(PROP, CM + '.process_response', name='cors_process_response[origin=%d,acrm=%d,ao*=%d,ac*=%d]' % (_o, _m, _w, _c), inline=INLINE,
                         fix={'req-has-Origin': _o, 'req-has-Access-Control-Request-Method': _m, 'allow_origins-wildcard?': _w,
                              'allow_credentials-wildcard?': _c})(cors_process_response)
+
+
+# "Requests without an Origin header are left untouched" -- for EVERY configuration and request: only the absence of
+# Origin is fixed; Access-Control-Request-*, wildcard / set configurations, expose_headers, method, outcome all vary.
+harness(PROP, CM + '.process_response', name='cors_process_response[origin=0]', inline=INLINE,
+        fix={'req-has-Origin': 0})(cors_process_response)
 
 
 def _record_process_response(reg, ex):
@@ -273,29 +285,42 @@ def cors_init(v):
     mw = v.obj(CM)
 
     def arg(name):
-        k = v.choose(5, name + '-shape')
+        """-> (argument, kind, the origins the normal form must hold exactly)"""
+        k = v.choose(9, name + '-shape')
         if k == 0:
-            return '*', 'wild'
+            return '*', 'wild', None
         if k == 1:
             s = v.str(name + '_single')
             v.assume(s != '*')
-            return s, 'single'
+            return s, 'single', [s]
         if k == 2:
             a = v.str(name + '_a')
             b = v.str(name + '_b')
             v.assume(And(a != '*', b != '*'))
-            return [a, b], 'list'
+            return [a, b], 'list', [a, b]
         if k == 3:
             a = v.str(name + '_a')
-            return [a, '*'], 'list-with-star'
-        return None, 'none'
+            return [a, '*'], 'list-with-star', None
+        if k == 4:
+            return None, 'none', []
+        if k == 5:  # the wildcard is refused wherever it stands in the iterable
+            a = v.str(name + '_a')
+            v.assume(a != '*')
+            return ['*', a], 'list-with-star', None
+        if k == 6:  # the wildcard alone in an iterable is still not the string literal
+            return ['*'], 'list-with-star', None
+        if k == 7:  # an empty iterable configures nobody (it is not the wildcard)
+            return [], 'empty', []
+        a = v.str(name + '_a')  # any iterable, not only a list
+        v.assume(a != '*')
+        return (a,), 'tuple', [a]
 
-    ao, ao_kind = arg('allow_origins')
+    ao, ao_kind, ao_items = arg('allow_origins')
     if ao_kind == 'none':
         v.cut()
-    ac, ac_kind = arg('allow_credentials')
-    ex_k = v.choose(3, 'expose-shape')
-    ex = None if ex_k == 0 else (v.str('expose') if ex_k == 1 else [v.str('expose_a'), v.str('expose_b')])
+    ac, ac_kind, ac_items = arg('allow_credentials')
+    ex_k = v.choose(5, 'expose-shape')
+    ex = [None, v.str('expose'), [v.str('expose_a'), v.str('expose_b')], [v.str('expose_a')], []][ex_k]
     out = v.call(mw, ao, ex, ac)
     bad = ao_kind == 'list-with-star' or ac_kind == 'list-with-star'
     v.check('star-inside-iterable-rejected', (out.exc is not None and out.exc.isa(ValueError)) if bad else out.exc is None)
@@ -308,13 +333,23 @@ def cors_init(v):
             (got_ac == '*') if ac_kind == 'wild' else _is_set_without_star(v, got_ac))
     if ac_kind == 'none':
         v.check('no-credentials-by-default', _is_empty_set(got_ac))
+    # "grants exactly the configured origins": the stored set holds the given origins and nothing else
+    if ao_items is not None:
+        v.check('allow-origins-set-holds-exactly-the-given-origins', _is_set_of(got_ao, ao_items))
+    if ac_items is not None:
+        v.check('allow-credentials-set-holds-exactly-the-given-origins', _is_set_of(got_ac, ac_items))
     got_ex = v.get(mw, 'expose_headers')
     if ex_k == 0:
         v.check('expose-none', got_ex is None)
     elif ex_k == 1:
         v.check('expose-string-kept', got_ex == ex)
-    else:
+    elif ex_k == 2:
         v.check('expose-list-joined', got_ex == ex[0] + ', ' + ex[1])
+    elif ex_k == 3:
+        v.check('expose-single-element-list-is-that-element', got_ex == ex[0])
+    else:
+        # normal form read by process_response: None or a str; an empty list exposes nothing
+        v.check('expose-empty-list-exposes-nothing', got_ex is None or (isinstance(got_ex, str) and got_ex == ''))
 
 
 def _is_set_without_star(v, s):
@@ -325,6 +360,17 @@ def _is_set_without_star(v, s):
     return isinstance(s, frozenset) and '*' not in s
 
 
+def _is_set_of(s, items):
+    """s is a set whose members are exactly `items` (symbolic members: the same terms, in any order)"""
+    from pyvc.models import SymSetOf
+
+    if isinstance(s, SymSetOf):
+        return len(s.items) == len(items) and all(any(x is y for y in items) for x in s.items) and all(any(x is y for x in s.items) for y in items)
+    if not isinstance(s, frozenset):
+        return False
+    return s == frozenset(items)
+
+
 def _is_empty_set(s):
     from pyvc.models import SymSetOf
 
@@ -332,6 +378,40 @@ def _is_empty_set(s):
         return len(s.items) == 0
     return isinstance(s, frozenset) and len(s) == 0
 
+
+# breaking edits (each must refute the named obligation on a scratch copy; ./check C20 --tier thorough runs all of them).
+# Every one manifests only for an input value that an earlier version of this file held fixed.
+_MW = 'falcon/middleware.py'
+KILLS = [
+    # no Origin header + wildcard allow_origins (the no-Origin variant used to fix set configurations and no ACR-Method)
+    (_MW, "        if origin is None:\n            return", "        if origin is None and self.allow_origins != '*':\n            return",
+     'no-origin-response-untouched'),
+    # no Origin header + Access-Control-Request-Method present
+    (_MW, "        if origin is None:\n            return",
+     "        if origin is None and not req.get_header('Access-Control-Request-Method'):\n            return", 'no-origin-response-untouched'),
+    # no Origin header + wildcard allow_credentials
+    (_MW, "        if origin is None:\n            return", "        if origin is None and self.allow_credentials != '*':\n            return",
+     'no-origin-response-untouched'),
+    # an EMPTY configured set is falsy ("empty means everybody"): the set stub used to be always true
+    (_MW, "if self.allow_origins != '*' and origin not in self.allow_origins:",
+     "if self.allow_origins and self.allow_origins != '*' and origin not in self.allow_origins:", 'disallowed-origin-response-untouched'),
+    # the literal request header `Origin: *` (used to be assumed away for every clause, now only for the wildcard sentence)
+    (_MW, "        if origin is None:\n            return", "        if origin is None or origin == '*':\n            return", 'decision-table-and-frame'),
+    # __init__: empty iterable
+    (_MW, "            self.allow_origins = frozenset(allow_origins)\n", "            self.allow_origins = frozenset(allow_origins) or '*'\n",
+     'CORSMiddleware.__init__#'),
+    # __init__: the wildcard anywhere in the iterable, not only in last position
+    (_MW, "            if '*' in self.allow_origins:", "            if allow_origins[-1] == '*':", 'star-inside-iterable-rejected'),
+    # __init__: empty expose list must still be normalised to None / str
+    (_MW, "if expose_headers is not None and not isinstance(expose_headers, str):", "if expose_headers and not isinstance(expose_headers, str):",
+     'expose-empty-list-exposes-nothing'),
+    # __init__: iterables other than list
+    (_MW, "            if isinstance(allow_origins, str):", "            if not isinstance(allow_origins, list):",
+     'allow-origins-set-holds-exactly-the-given-origins'),
+    # __init__: every given origin is kept
+    (_MW, "            allow_credentials = frozenset(allow_credentials)\n", "            allow_credentials = frozenset(allow_credentials[:1])\n",
+     'allow-credentials-set-holds-exactly-the-given-origins'),
+]
 
 ASSUMPTIONS = [
     'Request.get_header(name, default) is a case-insensitive lookup returning the header value or the default (contract of C09, stubbed here)',
